@@ -31,7 +31,8 @@ RULE = ("2-5 features, level / variance / correlation shifts sized to raise alar
         "streams periodic with period window_size (test window = reference window as a multiset: intersection score must be >= 0, 0 up to the stated rounding bound, "
         "and no alarm when delta >= 0.005), dyadic-grid data, out-of-support excursions (winsorising), streams shorter than 2*window_size; the two former "
         "witnesses (window_size=10: ZeroDivisionError; equal windows scoring -2^-52 and alarming) are the first two cases. "
-        "Non-trivial: at least one drift followed by a completed second build; distinct by content.")
+        "Non-trivial: at least one drift followed by a completed second build; distinct by content."
+        " Also: a 300-sample window; rows handed over as one-row DataFrames with named columns in a third of the cases, a permuted-column row must be refused (probed after the run).")
 SHARD = 6
 
 C_FIT_SCALE, C_SCALE, C_INV, C_PCA_FIT, C_PCA_TR, C_KDE, C_JS = 1, 2, 3, 4, 5, 6, 7
